@@ -338,8 +338,15 @@ Proof.
   intros H. destruct (coeffs_ok _ _ H) as [full [rows [Hf [Hr HF]]]].
   destruct (slices_okL _ _ _ HF) as [sl [Hsl Hok]].
   exists full, sl. split; [exact Hf|]. split.
-  - unfold run_slices, run_slices_with. unfold get_full_coeffs in Hr. rewrite Hf, Hr. exact Hsl.
+  - unfold run_slices, run_slices_with. destruct ps as [|p0 ps']; [vm_compute in H; destruct tol; discriminate|].
+    unfold run_slices_strict_with. unfold get_full_coeffs in Hr. rewrite Hf, Hr. exact Hsl.
   - split; [exact Hok|]. split.
     + eapply slices_positive; eauto. eapply full_tlist_sorted; eauto.
     + eapply slices_total; eauto.
 Qed.
+
+(* the processor without any pulse *)
+Lemma no_pulse tol :
+  get_full_tlist tol [] = None /\ get_full_coeffs tol [] = None /\
+  run_slices tol [] = Some [] /\ run_slices_v2 tol [] = None.
+Proof. repeat split; reflexivity. Qed.
